@@ -770,3 +770,30 @@ func (p *parser) postfix() (SExpr, error) {
 		}
 	}
 }
+
+// allClauseTexts: the source text of every clause of the contract (for listing what a specification refers to).
+func (ct *Contract) allClauseTexts() []string {
+	var out []string
+	add := func(cs []*Clause) {
+		for _, c := range cs {
+			if c != nil {
+				out = append(out, c.Text)
+			}
+		}
+	}
+	add(ct.Requires)
+	add(ct.Ensures)
+	add(ct.AtReturn)
+	for _, a := range ct.AtCall {
+		if a != nil && a.Clause != nil {
+			out = append(out, a.Clause.Text)
+		}
+	}
+	for _, cs := range ct.LoopInv {
+		add(cs)
+	}
+	for _, cs := range ct.LoopStep {
+		add(cs)
+	}
+	return out
+}
